@@ -429,6 +429,81 @@ pub fn run(rep: &Report) -> i32 {
             }
         });
     });
+    // (D) unwrap_left / unwrap_right at sums whose sides have different types: the symbol's kind carries the type of
+    // the call's argument, and map_value must hand back the argument value at exactly that type
+    {
+        let u = Ty::U;
+        let sides: Vec<(Ty, Ty, Val, Val)> = vec![
+            (u(8), u(32), Val::u(8, 7), Val::u(32, 70000)),
+            (u(32), u(8), Val::u(32, 70000), Val::u(8, 7)),
+            (u(8), Ty::Bool, Val::u(8, 200), Val::Bool(true)),
+            (Ty::unit(), u(16), Val::unit(), Val::u(16, 300)),
+            (Ty::tup(vec![u(8), u(16)]), Ty::opt(u(8)), Val::Tuple(vec![Val::u(8, 1), Val::u(16, 2)]), Val::Some(Box::new(Val::u(8, 3)))),
+            (u(8), u(8), Val::u(8, 1), Val::u(8, 2)),
+        ];
+        let mut n = 0u64;
+        for (l, r, lv, rv) in &sides {
+            for left in [true, false] {
+                let ety = Ty::either(l.clone(), r.clone());
+                let (arg, argv, call_e, res_ty) = if left {
+                    (Expr::Left(Box::new(refmodel::val_expr(lv, l))), Val::Left(Box::new(lv.clone())), CallName::UnwrapLeft(r.clone()), l.clone())
+                } else {
+                    (Expr::Right(Box::new(refmodel::val_expr(rv, r))), Val::Right(Box::new(rv.clone())), CallName::UnwrapRight(l.clone()), r.clone())
+                };
+                let stmts = vec![let_(Pat::id("e"), ety.clone(), arg), let_(Pat::id("v"), res_ty, call(call_e, vec![var("e")]))];
+                let text = Program { items: vec![Item::Fn(FnDef { name: "main".into(), params: vec![], ret: None, body: (stmts, None) })] }.render();
+                n += 1;
+                rep.state();
+                rep.transition(1);
+                rep.eval(1);
+                rep.trace(1);
+                rep.nontrivial(1);
+                let replay = |what: &str| json!({"kind": "compile", "program": text, "debug": true, "expect": "unwrap symbol carries the argument type and reconstructs the argument", "observed": what});
+                let built = match drive::build(&text, simfony::Arguments::default(), true) {
+                    Ok(b) => b,
+                    Err(o) => {
+                        rep.violation("C14:site-program-not-compiled", format!("unwrap at {}: {o:?}", ety.render()), replay("not compiled"));
+                        continue;
+                    }
+                };
+                let want_kind = if left { "unwrap_left" } else { "unwrap_right" };
+                let symbols = built.compiled.debug_symbols();
+                let ms = drive::guard(|| markers(&built.compiled)).unwrap_or_default();
+                let mut found = false;
+                for m in &ms {
+                    let Some(tc) = symbols.get(m) else { continue };
+                    if kind_of(tc.name()) != want_kind {
+                        continue;
+                    }
+                    found = true;
+                    let payload = match tc.name() {
+                        TrackedCallName::UnwrapLeft(t) | TrackedCallName::UnwrapRight(t) => t.clone(),
+                        _ => unreachable!(),
+                    };
+                    if payload != drive::sim_ty(&ety) {
+                        rep.violation("C14:unwrap-symbol-type", format!("{want_kind} at {}: the symbol says the argument has type {payload}", ety.render()), replay("wrong argument type in the symbol"));
+                    }
+                    let sv = drive::sim_val(&argv, &ety);
+                    let st = StructuralValue::from(&sv);
+                    let back = drive::guard(|| tc.map_value(&st));
+                    let good = match &back {
+                        Ok(Some(simfony::either::Either::Left(fc))) => match fc.name() {
+                            simfony::debug::FallibleCallName::UnwrapLeft(v) | simfony::debug::FallibleCallName::UnwrapRight(v) => *v == sv,
+                            _ => false,
+                        },
+                        _ => false,
+                    };
+                    if !good {
+                        rep.violation("C14:unwrap-value-reconstruction", format!("{want_kind} at {}: map_value does not give back the argument {}", ety.render(), render_expr(&refmodel::val_expr(&argv, &ety))), replay("argument not reconstructed"));
+                    }
+                }
+                if !found {
+                    rep.violation("C14:site-without-marker", format!("{want_kind} at {}: no marker of that kind in the debug build", ety.render()), replay("no marker"));
+                }
+            }
+        }
+        rep.set("unwrap_symbol_programs", json!(n));
+    }
     rep.finish(
         "states = call-site programs (kind x context x layout x render options) + family programs; non-trivial = programs with at least two reachable tracked call sites",
         &["call-site byte ranges come from the harness renderer; text comparison ignores whitespace", "reachable = main plus functions called (directly, via fold / for_while, transitively) from main"],
